@@ -43,7 +43,7 @@ var c9Kinds = []struct{ kind, family string }{
 
 // c09Grid: one (kind, TTL) cell per run index, all hop counts 1..TTL+2.
 func c09Grid(w *W) {
-	cell := w.RunIdx / 2 // two scenarios are interleaved by the run index
+	cell := w.ScenOrd
 	kc := c9Kinds[cell%len(c9Kinds)]
 	ttl := 1 + (cell/len(c9Kinds))%255
 	w.SetShape("kind", kc.kind)
